@@ -1261,6 +1261,13 @@ Lemma vis_rev s : vis s = true -> vis (rev s) = true.
 Proof.
   unfold vis. intros H. apply forallb_forall. intros x Hx. apply in_rev in Hx. rewrite forallb_forall in H. apply H. exact Hx.
 Qed.
+Lemma vis_skip_trail s : vis s = true -> s <> [] -> av_skip_trail s = Some 0.
+Proof.
+  intros Hv Hne. unfold av_skip_trail. rewrite rev_append_rev, app_nil_r. pose proof (vis_rev s Hv) as Hr.
+  destruct (rev s) as [|c r] eqn:E; [exfalso; apply Hne; rewrite <- (rev_involutive s), E; reflexivity|].
+  unfold vis in Hr. cbn [forallb] in Hr. apply andb_prop in Hr as [Hc _].
+  cbn [av_skip_trail_rev]. rewrite (not_removable c Hc). reflexivity.
+Qed.
 Lemma vis_app a b : vis (a ++ b) = vis a && vis b.
 Proof. unfold vis. apply forallb_app. Qed.
 
@@ -1272,8 +1279,8 @@ Proof.
   intros Hv Hne. unfold av_dec_quoted_string. rewrite (vis_utf8 s Hv). unfold av_formatted, av_quoted_text.
   rewrite (vis_qscan s Hv). cbn [negb andb]. rewrite (vis_skip s Hv Hne).
   unfold av_str_from, av_is_boundary. rewrite N.eqb_refl. change (drop 0 s) with s. cbn [av_bind].
-  unfold av_chars. rewrite (vis_utf8 s Hv). unfold av_skip_trail.
-  rewrite (vis_skip (rev s) (vis_rev s Hv)) by (intros E; apply Hne; rewrite <- (rev_involutive s), E; reflexivity).
+  unfold av_chars. rewrite (vis_utf8 s Hv).
+  rewrite (vis_skip_trail s Hv Hne).
   replace (len s <? 0) with false by (symmetry; apply N.ltb_ge; lia). rewrite N.sub_0_r.
   pose proof (len_pos_nonempty s Hne) as Hl.
   unfold av_str_to, av_is_boundary. replace (len s =? 0) with false by (symmetry; apply N.eqb_neq; lia).
